@@ -324,6 +324,10 @@ func tokenizeForSemantics(content string) []semanticToken {
 		if tok.Type == parser.TokenComment {
 			length++
 		}
+		if length == 0 {
+			// e.g. a text token that is blank after trimming (the CR of a CRLF line end)
+			continue
+		}
 
 		tokens = append(tokens, semanticToken{
 			line:      uint32(tok.Pos.Line - 1),
